@@ -508,7 +508,8 @@ def _create_params(parent, argslist_list):
     if first.type in ('name', 'fpdef'):
         return [Param([first], parent)]
     elif first == '*':
-        return [first]
+        # Already split up, e.g. `def f(*,)` when a dumped tree is evaluated.
+        return list(argslist_list)
     else:  # argslist is a `typedargslist` or a `varargslist`.
         if first.type == 'tfpdef':
             children = [first]
